@@ -34,5 +34,23 @@ def handle (args : List String) : String :=
           | _, none => "bad-query"
         | _ => "bad-query"
       if qs == "-" then "-" else ";".intercalate ((qs.splitOn ";").map one)
+  | ["cov", as, maxb, gs] =>
+    -- gs: ;-separated per group `atom index|titratable 0/1`; atoms carry their SYBYL type in the name field of the scoring format
+    match (if as == "-" then some [] else (as.splitOn ";").mapM parseAtom), maxb.toNat?,
+          (if gs == "-" then some [] else (gs.splitOn ";").mapM fun s => match s.splitOn "|" with
+            | [a, t] => a.toNat?.map fun a => (a, t == "1")
+            | _ => none) with
+    | some atoms, some maxB, some groups =>
+      let aarr := atoms.toArray
+      let garr := groups.toArray
+      let atab : Tab AtomT := ⟨aarr.size, fun i => ((aarr[i]?).map (·.t)).getD default⟩
+      let gatom : Nat → Nat := fun g => ((garr[g]?).map (·.1)).getD 0
+      let titr : Nat → Bool := fun g => ((garr[g]?).map (·.2)).getD false
+      -- the group an atom defines: the last group constructed on it
+      let grpOf : Nat → Option Nat := fun a => ((List.range garr.size).filter fun g => gatom g == a).getLast?
+      let sybyl : Nat → String := fun a => (atab.get a).name
+      let cov := covalentCoupling atab garr.size gatom grpOf titr sybyl maxB
+      ";".intercalate ((List.range garr.size).map fun g => showList (cov.getD g []))
+    | _, _, _ => "bad-op"
   | _ => "bad-op"
 end Propka.Setup
